@@ -3092,8 +3092,9 @@ def _ra(name=_RA_ABSENT, friendly=_RA_ABSENT, fmt=_RA_ABSENT, required=_RA_ABSEN
 def _ra_class(acs, attr):
     """where the attribute stands against the stated domain, from the converters' TABLES alone (mirror of
     BuilderProofs.rattr_ok / Corr.both_no_format; it only steers the generator - Coq judges the output):
-    "ok" the element has to be valid, "f10" finding 10, "raises", "invalid" (an argument outside the domain: an
-    attribute no loaded map knows, a `required` that is no boolean)."""
+    "ok" the element has to be valid, "raises", "invalid" (an argument outside the domain: an attribute no loaded map
+    knows, a `required` that is no boolean).  Since 711f9f2e (finding 10) a name the maps know needs no name_format
+    even when the friendly name is given as well."""
     name, friendly, fmt = attr.get("name"), attr.get("friendly_name"), attr.get("name_format")
     if not name and not friendly:
         return "raises"
@@ -3101,8 +3102,6 @@ def _ra_class(acs, attr):
         return "invalid"
     if name:
         known = any(name.lower() in (c._fro or {}) for c in acs)
-        if friendly:
-            return "ok" if fmt is not None else ("f10" if known else "invalid")
         return "ok" if (fmt is not None or known) else "invalid"
     return "ok" if any(friendly.lower() in (c._to or {}) for c in acs) else "invalid"
 
@@ -3180,8 +3179,8 @@ def gen_reqattr(ctx):
                 for n in names + names_x[:1]:
                     if fmt == _RA_ABSENT or ctx.thorough:
                         out.append(_ar_case([_ra(name=n, fmt=fmt)], cfg, tag + "-name"))
-        # name and friendly name both given: nothing is looked up (with a format: valid; without: finding 10 where a map
-        # knows the name), in agreement with the maps or not
+        # name and friendly name both given: neither loop runs (with a format: taken as it is; without: the third step
+        # of 711f9f2e - finding 10 before it - takes the format of the first map that knows the name)
         pairs = [(names[0], acs_fro(acs, names[0])), (names[-1], "somethingElse"), (names[0], friendlies[-1])]
         for n, f in pairs if (ms is None or ctx.thorough) else pairs[:1]:
             for fmt in [NF_URI, "", NF_CUSTOM, _RA_ABSENT, None]:
@@ -3260,7 +3259,7 @@ def gen_reqattr(ctx):
         if "invalid" in kinds:
             raise RuntimeError("gen_reqattr left the domain: %r" % (c,))
     muts = []
-    pool = [c for c in out if c["tag"] not in ("ra-raises",) and not c["tag"].endswith("-both")]
+    pool = [c for c in out if c["tag"] not in ("ra-raises",)]
     for _ in range(60 if ctx.thorough else 10):
         c = copy.deepcopy(pool[rng.randrange(len(pool))])
         c["mut"] = rng.randrange(1 << 30)
@@ -3358,8 +3357,8 @@ UNDER_THEOREM = {
                             "ForceAuthn, IsPassive, NameIDPolicy/AllowCreate/vorg, RequestedAuthnContext, Scoping, Conditions, "
                             "Subject, Extensions with eIDAS SPType / RequestedAttributes, consent, destination, signing); "
                             "create_requested_attribute_node: c13_reqattr_valid, c13_reqattr_first_map, "
-                            "c13_reqattr_names_independent_of_format, c13_reqattr_name_present, finding 10: c13_reqattr_no_format_refuted / "
-                            "_known_guarded_valid / _fixed_valid / _fixed_conservative; tied to the source text by "
+                            "c13_reqattr_names_independent_of_format, c13_reqattr_name_present, finding 10 (repaired): c13_reqattr_no_format_v0_refuted / "
+                            "c13_reqattr_known_valid / c13_reqattr_fix_conservative; tied to the source text by "
                             "c13_src2_requested_attribute_node (coq/gen/C13Src2.v, translator v2)",
     "create_logout_request": "c13_logout_request_valid, c13_logout_request_one_identifier",
     "create_logout_response": "c13_logout_response_valid (_status_response)",
